@@ -113,17 +113,25 @@ def r1(ctx):
         hist = [h for h in hist if len(h) == 1 or (h[0] != h[1] and SETS.index(h[0]) < 5 and SETS.index(h[1]) < 8)]
     fails = {}
     n = 0
-    for h in hist:
+    # a history is either responses followed by one lookup, or (for two responses) also with a lookup for the same host in
+    # between -- a connection made before the second response arrives must not influence what is sent afterwards
+    runs = [(h, False) for h in hist] + [(h, True) for h in hist if len(h) == 2]
+    for h, interleaved in runs:
         ref = RefJar()
         for s in h:
             ref.add(s)
         for host in HOSTS:
+            if interleaved and host in ("", "org", "example.com.evil"):
+                continue
+
             def body(run):
                 # responses enter the jar the way they do in production: through handshake_response.__init__,
                 # and the jar is the module-level one that _get_handshake_headers consults
-                for s in h:
-                    I.call(run, Cls("_handshake:handshake_response"), [C(101), new_dict(run, {"set-cookie": C(s)}, False, "resp"), NONE], {}, None)
                 jar = I.module_env(run, "_handshake").vars["CookieJar"]
+                for k, s in enumerate(h):
+                    I.call(run, Cls("_handshake:handshake_response"), [C(101), new_dict(run, {"set-cookie": C(s)}, False, "resp"), NONE], {}, None)
+                    if interleaved and k == 0:
+                        I.call(run, I.getattr(run, jar, "get", None), [C(host)], {}, None)
                 return I.call(run, I.getattr(run, jar, "get", None), [C(host)], {}, None)
             outs = I.explore(body)
             ctx.paths += len(outs)
@@ -137,8 +145,9 @@ def r1(ctx):
             got = outs[0].value.v if outs[0].kind == "return" else f"<raises {outs[0].exc_class}>"
             ok = got == want
             cls = ("case" if any(x.lower() != x for s in h for x in [s.split("Domain=")[-1]] if "Domain=" in s) else "plain") + f":{len(h)}"
-            ctx.ob(f"{JAR}:history:{' | '.join(h)} -> {host or '<empty>'}", ok, f"Cookie: {got!r}" if ok else
-                   f"after responses {list(h)} a handshake to {host!r} sends Cookie {got!r}; the reference jar gives {want!r}", loc,
+            ctx.ob(f"{JAR}:history:{' | '.join(h)}{' (lookup in between)' if interleaved else ''} -> {host or '<empty>'}", ok, f"Cookie: {got!r}" if ok else
+                   f"after responses {list(h)}" + (f" (with a connection to {host!r} made after the first one)" if interleaved else "") +
+                   f" a handshake to {host!r} sends Cookie {got!r}; the reference jar gives {want!r}", loc,
                    {"history": list(h), "host": host})
     if n < 100:
         raise AnalysisError("history grid too small")
